@@ -25,6 +25,20 @@ CHECKS = {
              note=T_BASE + '; SHA-256 uninterpreted',
              technique='contracts on the real functions, symbolic execution over all paths with abstract children, exhaustive finite case split, z3',
              design_ref='DESIGN.md §5 C02'),
+ 'C08': dict(category='proof',
+             text='Heap invariant I (no container of a Cell is reachable from any Slice/Builder/other Cell; distinct derived objects '
+                  'share no container) is proved to be re-established by EVERY derivation route (begin_parse, to_slice, from_cell, '
+                  'to_builder, copy, to_cell after reads, store_cell/store_slice, end_cell/to_cell/to_slice and their compositions): '
+                  'the derived object shares no container with its source, carries its content (symbolic bits of symbolic length, '
+                  'abstract children), and mutating everything derived leaves the source cell untouched (bits, refs, hashes, depths, '
+                  'cached fields, container identities).  frame(Cell.m) = {} for every Cell accessor/conversion, the constructor leaves '
+                  'its arguments (incl. a plain unaligned bitarray) untouched, argument-taking stores leave their arguments untouched. '
+                  'No hidden state: exhaustive AST scan of the package (no mutable default argument or module-level container is '
+                  'mutated, directly or through package calls) plus dynamic double-runs.  By induction over the history the property '
+                  'holds for every interleaving; a random stateful exploration is the bounded stand-in.',
+             note=T_BASE + '; aliasing is checked on the real CPython object graph (identity), contents are symbolic',
+             technique='frame conditions and a heap (ownership) invariant as contracts on the real methods, symbolic execution over all paths on the real object graph, static AST scan for hidden state; z3',
+             design_ref='DESIGN.md §5 C08'),
  'C09': dict(category='other',
              text='Deductive per-function contracts on the real code: key admission for ALL integers (accepted iff 0 <= k < 2^size, stored '
                   'under exactly k) and normalisation of every key form (bytes, bit text, Address = 267-bit addr_std image, hashed text, '
